@@ -70,12 +70,24 @@ def load_plugin(pid):
 
 
 def known_findings(pid):
+    """Entries of the committed known-findings file(s) for one property.
+    known_findings.json is the merged, committed list; known_findings/Cnn.json
+    fragments (same entry format, a JSON list) are merged in by id."""
+    ents, seen = [], set()
     p = os.path.join(VERIF, "known_findings.json")
-    if not os.path.exists(p):
-        return []
-    with open(p) as f:
-        d = json.load(f)
-    return [e for e in d.get("findings", []) if e.get("property") == pid or pid in e.get("also", [])]
+    if os.path.exists(p):
+        with open(p) as f:
+            for e in json.load(f).get("findings", []):
+                if e["id"] not in seen:
+                    seen.add(e["id"])
+                    ents.append(e)
+    for fp in sorted(glob.glob(os.path.join(VERIF, "known_findings", "*.json"))):
+        with open(fp) as f:
+            for e in json.load(f):
+                if e["id"] not in seen:
+                    seen.add(e["id"])
+                    ents.append(e)
+    return [e for e in ents if e.get("property") == pid or pid in e.get("also", [])]
 
 
 # --------------------------------------------------------------------------
